@@ -39,8 +39,9 @@ META = {
                   "not taken from a server; TTL / timestamps are ignored and a batch is applied member by member (batches whose members "
                   "write the same cell are not generated).  The transcription of the documentation into MapperRow.tla is trusted.  "
                   "Instance saves of a changed collection are only generated while the row still holds what the instance read (the "
-                  "documentation does not define the other case).  Values read back are plain set / list / dict, not the driver's "
-                  "SortedSet / OrderedMap.  In the thorough tier the depth-3 graph is replayed by seeded random walks (coverage reported), "
+                  "documentation does not define the other case).  Collection elements are timestamps (Set / List of DateTime, Map of "
+                  "Integer -> DateTime: database form differs from Python form); Date / Time / Decimal / UUID elements are not "
+                  "modelled.  Values read back are plain set / list / dict, not the driver's SortedSet / OrderedMap.  In the thorough tier the depth-3 graph is replayed by seeded random walks (coverage reported), "
                   "the depth-2 graphs completely.  Vacuity witnesses: on the graph in both tiers, by TLC in the thorough tier.",
     "design_ref": "5.6 C37 / C35 / C38",
 }
@@ -312,6 +313,9 @@ def explore(ctx, M, mode, steps, wide, batch, label, by_signature, full=True, wa
     if not printed_ops or not printed_inits:
         raise tlc.MachineryError("TLC did not print the operation alphabet")
     ops, inits = printed_ops[0][1], printed_inits[0][1]
+    elems = res.printed("ELEMS")
+    if not elems or dict(elems[0][1]) != M.ELEMS:
+        raise tlc.MachineryError("the harness models other collection element types (%s) than the specification (%s)" % (M.ELEMS, elems))
     if len(ops) > {"NextCounter": 16, "NextNarrow": 96, "Next": 320}[nxt]:
         raise tlc.MachineryError("the alphabet has %d operations, %s covers fewer" % (len(ops), nxt))
     taken = set(int(lab[lab.index("(") + 1:lab.index(")")]) for _, _, lab in edges)
@@ -329,8 +333,17 @@ def explore(ctx, M, mode, steps, wide, batch, label, by_signature, full=True, wa
             for i in range(1, len(post) - len(pre)):
                 if pre and post[i:i + len(pre)] == pre and post[:i] != post[i + len(pre):] and nodes[did]["db"] != nodes[sid]["db"]:
                     both += 1
-        if not both:
-            raise tlc.MachineryError("vacuity: no save of a list that grew at both ends by different values (%s)" % label)
+        # a save of a set / map that keeps some elements and changes others (the difference is what is sent)
+        partial = 0
+        for sid, did, lab in edges:
+            op = ops[int(lab[lab.index("(") + 1:lab.index(")")]) - 1]
+            if op["name"] == "isave":
+                pre, post = frozenset(nodes[sid]["inst"]["cur"]["s"]), frozenset(nodes[did]["inst"]["cur"]["s"])
+                partial += bool(pre & post and pre != post)
+        if not both or not partial:
+            raise tlc.MachineryError("vacuity: no save of a list that grew at both ends by different values / of a set that "
+                                     "kept some of its elements (%s)" % label)
+        ctx.note("saves_of_partly_changed_sets_%s" % label.split(",")[0].replace(" ", "_"), partial)
         ctx.note("saves_of_lists_grown_at_both_ends_%s" % label.split(",")[0].replace(" ", "_"), both)
     wanted = ROW_WITNESSES if mode == "row" else COUNTER_WITNESSES
     seen = set()
